@@ -19,6 +19,7 @@
 import Lean.Data.Json
 import Yabgp.Driver.Json
 import Yabgp.Model.Mp.EvfWrap
+import Yabgp.Model.Construct.EvpnGuards
 
 namespace Yabgp.EvfGlue
 open Lean (Json)
@@ -258,7 +259,7 @@ def dispatchEvf (st : EvfDState) (j : Json) : Except String (EvfDState × Json) 
   | "evpn.construct" => do
       let rs ← (← getArr j "routes").mapM readRoute
       if !(rs.all routeModelled) then pure (st, unmodelled "double") else
-      pure (st, match constructRoutes rs with
+      pure (st, match constructRoutesR rs with
                 | some b => obj [("hex", hex b)]
                 | none => raise)
   | "evpn.esi.parse" => do
@@ -266,7 +267,7 @@ def dispatchEvf (st : EvfDState) (j : Json) : Except String (EvfDState × Json) 
                 | some e => obj [("ok", esiJson e)]
                 | none => raise)
   | "evpn.esi.construct" => do
-      pure (st, match constructEsi (← readEsi (← j.getObjVal? "esi")) with
+      pure (st, match constructEsiR (← readEsi (← j.getObjVal? "esi")) with
                 | some b => obj [("hex", hex b)]
                 | none => raise)
   | "flowspec.parse" => do
@@ -277,7 +278,7 @@ def dispatchEvf (st : EvfDState) (j : Json) : Except String (EvfDState × Json) 
       match (← readRule (← j.getObjVal? "rule")) with
       | none => pure (st, unmodelled "text")
       | some d =>
-        pure (st, match constructNlri d with
+        pure (st, match constructNlriR d with
                   | none => raise
                   | some none => obj [("none", Json.bool true)]
                   | some (some b) => obj [("hex", hex b)])
@@ -301,13 +302,13 @@ def dispatchEvf (st : EvfDState) (j : Json) : Except String (EvfDState × Json) 
       let (afi, safi) ← readAfiSafi v
       match (← readNlri afi safi (← v.getObjVal? "nlri")) with
       | none => pure (st, unmodelled "text or double")
-      | some n => pure (st, crJson (constructReach { nexthop := (← readOptIp v "nexthop"), nlri := n }))
+      | some n => pure (st, crJson (constructReachR { nexthop := (← readOptIp v "nexthop"), nlri := n }))
   | "evf.mpunreach.construct" => do
       let v ← j.getObjVal? "value"
       let (afi, safi) ← readAfiSafi v
       match (← readNlri afi safi (← v.getObjVal? "withdraw")) with
       | none => pure (st, unmodelled "text")
-      | some n => pure (st, crJson (constructUnreach n))
+      | some n => pure (st, crJson (constructUnreachR n))
   | _ => throw s!"unknown op {op}"
 
 end Yabgp.EvfGlue
